@@ -62,6 +62,10 @@ type target struct {
 	gen     func(rt *rapid.T) []byte       // structure-aware generator of whole cases
 	seeds   func() [][]byte                // valid packets + hostile constants (fuzz corpus)
 	cleanup func()                         // after a recovered panic
+	hangAs  string                         // signature component of hang violations (default: name)
+	// dictSeeds: stateless variants built from the dictionary harvested from the code under test (dict_test.go):
+	// bounded-exhaustive over dictionary x hostile inner shapes; part of the Fuzz* seed corpus in both tiers
+	dictSeeds func() [][]byte
 
 	// steering around listed known findings (also applied to native fuzz inputs, see steerFuzz)
 	nsel      int                 // number of selector bytes in front of the packet
@@ -105,7 +109,11 @@ func targetNames() []string {
 	return n
 }
 
+// verdictPanic lets a target report a violation it established itself (not a panic of the code under test).
+type verdictPanic struct{ sig, msg string }
+
 type result struct {
+	override string // signature established by the target itself (verdictPanic)
 	panicked bool
 	val      any
 	site     string
@@ -115,6 +123,9 @@ type result struct {
 }
 
 func (r *result) sig(tg *target) string {
+	if r.override != "" {
+		return r.override
+	}
 	g := tg.group
 	if g == "" {
 		g = tg.name
@@ -225,7 +236,9 @@ func invoke(tg *target, data []byte) result {
 		defer func() {
 			if v := recover(); v != nil {
 				res.panicked = true
-				if bp, ok := v.(*bubblePanic); ok { // caught inside a synctest bubble (inBubble)
+				if vp, ok := v.(*verdictPanic); ok {
+					res.override, res.val, res.kind, res.site = vp.sig, vp.msg, "verdict", "harness"
+				} else if bp, ok := v.(*bubblePanic); ok { // caught inside a synctest bubble (inBubble)
 					res.val, res.kind, res.site, res.stack = bp.val, panicKind(bp.val), bp.site, bp.stack
 				} else {
 					res.val = v
@@ -273,6 +286,50 @@ func invoke(tg *target, data []byte) result {
 	}
 }
 
+func hangSig(tg *target, fn string) string {
+	n := tg.hangAs
+	if n == "" {
+		n = tg.name
+	}
+	return "C09/" + n + "/hang/" + fn
+}
+
+// hangSite names the innermost repository function of the goroutine that runs the case (the one that does not
+// return), from a dump of all goroutine stacks.
+func hangSite() string {
+	buf := make([]byte, 1<<20)
+	buf = buf[:runtime.Stack(buf, true)]
+	gs := strings.Split(string(buf), "\n\n")
+	// the goroutine invoke started for the case; a case that runs in a synctest bubble sits in the bubble's goroutine
+	// (second pass: the harness itself may be the one that blocks, in a read-only hook, on a lock the code under test
+	// never released)
+	for _, marker := range []string{"c09.invoke.func1", "c09.inBubble", "hook:c09.invoke.func1", "hook:c09.inBubble"} {
+		hooks := strings.HasPrefix(marker, "hook:")
+		marker = strings.TrimPrefix(marker, "hook:")
+		for _, g := range gs {
+			if !strings.Contains(g, marker) {
+				continue
+			}
+			lines := strings.Split(g, "\n")
+			for i := 1; i+1 < len(lines); i += 2 {
+				fn, file := lines[i], lines[i+1]
+				if strings.HasPrefix(fn, repoModule) && (hooks || !strings.Contains(file, "verif_c09")) {
+					if k := strings.LastIndex(fn, "("); k > 0 {
+						fn = fn[:k]
+					}
+					fn = strings.TrimPrefix(strings.TrimPrefix(fn, repoModule+"pkg/"), repoModule)
+					if k := strings.Index(fn, "["); k > 0 {
+						fn = fn[:k]
+					}
+					return fn
+				}
+			}
+		}
+	}
+	_ = os.WriteFile(filepath.Join(outDir(), "hang-stacks.txt"), buf, 0o644) // triage aid: no repository frame found
+	return "unknown"
+}
+
 func procCPU() time.Duration {
 	var ru syscall.Rusage
 	if syscall.Getrusage(syscall.RUSAGE_SELF, &ru) != nil {
@@ -313,10 +370,15 @@ func inFuzzWorker() bool {
 func onWatchdog(tg *target, data []byte, why string) {
 	if os.Getenv(isoEnv) != "" {
 		// already the isolated run: confirmed
-		sig := "C09/" + tg.name + "/hang"
+		sig := hangSig(tg, hangSite())
 		origin := os.Getenv(isoOriginEnv)
 		if origin == "" {
 			origin = "TestReplayIsolated"
+		}
+		if vstat.Known(sig) {
+			fmt.Printf("C09 watchdog: %s reproduced in isolation, listed known finding (%s)\n", sig, why)
+			vstat.Flush()
+			os.Exit(0)
 		}
 		p := filepath.Join(outDir(), "violations", origin+"__hang-"+tg.name+".json")
 		writeCaseFile(p, caseFile{Target: tg.name, Sig: sig, Hex: hex.EncodeToString(data), Note: why})
